@@ -211,6 +211,7 @@ static Result run_here(const uint8_t *d, size_t n, bool verbose) {
   Ctx ctx(d, n, verbose);
   int64_t before = g_live;
   try {
+    alloc_reset();
     if (t.reset) t.reset();
     t.run(ctx);
   } catch (Fail &f) {
